@@ -65,6 +65,15 @@ TrDisk == /\ IsEvent("Disk")
           /\ crashes' = crashes + 1
           /\ UNCHANGED <<acked, failedW, seen, readRet, nreads, closes, hist>>
 
+\* another process (the master) has written more records: the files now hold E.recs
+TrGrow == /\ IsEvent("Grow")
+          /\ up = "down"
+          /\ Len(E.recs) >= Len(blog) /\ Prefix(E.recs, Len(blog)) = blog
+          /\ blog' = E.recs /\ written' = Len(E.recs) /\ synced' = Len(E.recs) /\ durable' = E.recs
+          /\ UNCHANGED <<cinfo, dbC, tx, dbOffset, up, lock, waitQ, rst, queue, qOff, rpos, rcommit, cl, acked, failedW,
+                         seen, readRet, nreads, crashes, closes, hist>>
+          /\ Quiet
+
 TrOpen == /\ IsEvent("Open")
           /\ RestartCore
           /\ hist' = hist /\ Quiet
@@ -79,9 +88,10 @@ TrRSkip == /\ IsEvent("RSkip")
 
 TrRApply == /\ IsEvent("RApply")
             /\ LET n == Len(E.ids)
-               IN IF n = 0
+                   tl == IF E.err = "" THEN "none" ELSE "partial"   \* the callback reported an incomplete / foreign tail
+               IN IF n = 0 /\ tl = "none"
                     THEN UNCHANGED vars
-                    ELSE /\ \E el \in BOOLEAN : ReadApplyCore(n, el)
+                    ELSE /\ \E el \in BOOLEAN : ReadApplyCore(n, el, tl)
                          /\ IdsOf(SubSeq(blog, rpos + 1, rpos + n)) = E.ids
                          /\ (rst' = "wtc") = E.queued
                          /\ dbOffset' = E.dbo
@@ -144,6 +154,16 @@ TrLoadTx(ev) ==
                  failedW, seen, readRet, nreads, crashes, closes, durable, hist>>
   /\ Quiet
 
+\* a ReadAndExit engine after its read of the files (no ChangeRole, never serving)
+TrUpRO ==
+  /\ IsEvent("UpRO")
+  /\ up = "replay" /\ rpos = written
+  /\ tx' = [app |-> E.rows, off |-> E.off]
+  /\ dbOffset' = E.dbo
+  /\ UNCHANGED <<blog, written, synced, cinfo, dbC, up, lock, waitQ, rst, queue, qOff, rpos, rcommit, cl, acked,
+                 failedW, seen, readRet, nreads, crashes, closes, durable, hist>>
+  /\ Quiet
+
 \* ---- serving
 TrExec == /\ IsEvent("Exec")
           /\ IF E.ok THEN UNCHANGED vars
@@ -200,7 +220,7 @@ Silent == {"TxAfterBegin", "TxAfterCommit", "SavepointEnd", "SkipDone", "ApplyDo
 TrSilent == /\ l <= Len(Trace) /\ Trace[l].ev \in Silent /\ l' = l + 1
             /\ UNCHANGED vars /\ Quiet
 
-TrNext == \/ TrReset \/ TrDisk \/ TrOpen \/ TrRSkip \/ TrRApply \/ TrBlCommit \/ TrTxBeforeCommit
+TrNext == \/ TrReset \/ TrDisk \/ TrGrow \/ TrUpRO \/ TrOpen \/ TrRSkip \/ TrRApply \/ TrBlCommit \/ TrTxBeforeCommit
           \/ TrQueueApplied \/ TrChangeRole \/ TrLoadTx("Up") \/ TrLoadTx("Read") \/ TrExec \/ TrAppendA
           \/ TrAppendB \/ TrDoQueued \/ TrRet \/ TrReadRet \/ TrView \/ TrSilent
 TraceSpec == TrInit /\ [][TrNext]_tvars
